@@ -131,7 +131,7 @@ class WriteHeadUnit(Unit):
         return ex
 
     def replay(self, failure):
-        """native: the second save of a reader position with a simulated process death before / after EVERY file-system call it makes (open of the head or temp file,
+        """native: the second save of a reader position in a forked child that dies HARD (os._exit: no user-space buffer is flushed) before / after EVERY file-system call it makes (open of the head or temp file,
         os.rename / replace / remove / unlink); a fresh reader on the same head file must start from the previous or from the new position"""
         import builtins, logging, os, shutil, tempfile
         logging.disable(logging.CRITICAL)
@@ -177,14 +177,12 @@ class WriteHeadUnit(Unit):
                         idx = len(calls)
                         calls.append(name)
                         if crash_at == (idx, 'before'):
-                            raise Death()
+                            os._exit(0)                # hard process death (the crash runs execute in a forked child): nothing buffered in user space is flushed
                         res = real[name](*a, **k)
                         if name == 'os_open':
                             fds.add(res)
                         if crash_at == (idx, 'after'):
-                            if name == 'open':
-                                res.close()
-                            raise Death()
+                            os._exit(0)
                         return res
                     return f
                 builtins.open = wrap('open')
@@ -193,7 +191,17 @@ class WriteHeadUnit(Unit):
                 for nm in ('open', 'write', 'fsync', 'close'):
                     setattr(os, nm, wrap('os_' + nm))
                 try:
-                    r.write_head()
+                    if crash_at is None:
+                        r.write_head()
+                    else:
+                        pid = os.fork()
+                        if pid == 0:
+                            try:
+                                r.write_head()
+                            except BaseException:
+                                pass
+                            os._exit(0)
+                        os.waitpid(pid, 0)
                 except Death:
                     pass
                 finally:
